@@ -69,11 +69,10 @@ fn process_tcp_packet(
     let flow_key: FlowKey = (src_ip, dst_ip, src_port, dst_port);
 
     // A SYN opens a new connection on this 4-tuple: whatever is still kept for an earlier one
-    // (an unfinished ClientHello, or the mark that one was already reported) does not apply to it
-    let flags = tcp.get_flags();
-    if flags & pnet::packet::tcp::TcpFlags::SYN != 0
-        && flags & pnet::packet::tcp::TcpFlags::ACK == 0
-    {
+    // (an unfinished ClientHello, or the mark that one was already reported) does not apply to it.
+    // Flows are kept per direction, so this holds for the SYN+ACK as well: it starts the byte
+    // stream of its sender, which may have been the client of an earlier connection on these ports
+    if tcp.get_flags() & pnet::packet::tcp::TcpFlags::SYN != 0 {
         tcp_flows.remove(&flow_key);
     }
 
